@@ -469,7 +469,12 @@ func (w *World) auditPending(t *rapid.T) {
 func propC09(t *rapid.T) {
 	useProfile(profSmall)
 	nW := rapid.IntRange(1, 2).Draw(t, "wallets")
+	if rapid.IntRange(0, 3).Draw(t, "withInternal") == 0 {
+		// wallets restored with internal (change-branch) addresses, which receive coins like the others
+		worldInternalHint = uint32(rapid.IntRange(1, 2).Draw(t, "internalIndex"))
+	}
 	w := newWorld(t, nW, 20, nil)
+	worldInternalHint = 0
 	defer w.close()
 	w.allowBinding = false
 	w.c09mode = true
